@@ -802,6 +802,199 @@ def case_run(function):
                if bad else None)]
 
 
+def _main_args(argv):
+    """The dictionary the REAL cli.main.main hands to run.simulation for the
+    given command line (argparse runs for real)."""
+    import sys
+    import importlib
+    Mn = importlib.import_module('emg3d.cli.main')
+    got = {}
+    saved, sargv = Mn.run.simulation, sys.argv
+    Mn.run.simulation = lambda d: got.update(d)
+    sys.argv = ['emg3d']+list(argv)
+    try:
+        Mn.main(list(argv))
+    finally:
+        Mn.run.simulation, sys.argv = saved, sargv
+    return got
+
+
+def case_main(_):
+    """Command line -> main() (real argparse) -> parser: an option NOT given
+    on the command line must not override the configuration file; one given
+    must."""
+    E = shadow.load()
+    set_ctx(Ctx(timeout_ms=30000))
+    State.OBJECT_ALLOC = True
+    grp = "command line -> main() -> parse_config_file"
+    content = {'simulation': {'max_workers': Opt('3'),
+                              'layered': Opt('True')},
+               'files': {'survey': Opt('C_survey'), 'model': Opt('C_model'),
+                         'output': Opt('C_out'), 'save': Opt('C_save')}}
+    bad = None
+
+    def parse(argv):
+        a = _main_args(['.']+argv)
+        if not a:
+            return None
+        a = dict(a)
+        a['config'] = '.'
+        P = E.cli.parser
+        saved = P.configparser
+
+        class CP:
+            @staticmethod
+            def ConfigParser(*x, **k):
+                m = CfgModel(content, {})
+                m.getint = lambda s_, k_: int(content[s_][k_])
+                m.getboolean = lambda s_, k_: content[s_][k_] == 'True'
+                return m
+        P.configparser = CP
+        try:
+            with warnings.catch_warnings():
+                warnings.simplefilter('ignore')
+                return P.parse_config_file(a)
+        finally:
+            P.configparser = saved
+    try:
+        out, term = parse([])
+        so, fl = out['simulation_options'], out['files']
+        if so.get('max_workers') != 3 or so.get('layered') is not True:
+            bad = (f"without -n/-l the configured max_workers/layered are "
+                   f"overridden: {so.get('max_workers')}, "
+                   f"{so.get('layered')}")
+        for k_, w in (('survey', 'C_survey'), ('model', 'C_model'),
+                      ('output', 'C_out'), ('save', 'C_save')):
+            if w not in str(fl.get(k_)):
+                bad = bad or f"without --{k_} the configured file is lost"
+        if term['function'] != 'forward' or term['dry_run'] or \
+                term['clean']:
+            bad = bad or "defaults of function/dry-run/clean changed"
+        out, term = parse(['-n', '7', '-l', '--survey', 'T_s', '--model',
+                           'T_m', '--output', 'T_o', '--save', 'T_sv',
+                           '-m', '-d'])
+        so, fl = out['simulation_options'], out['files']
+        if so.get('max_workers') != 7 or so.get('layered') is not True:
+            bad = bad or "terminal -n/-l do not arrive"
+        for k_, w in (('survey', 'T_s'), ('model', 'T_m'),
+                      ('output', 'T_o'), ('save', 'T_sv')):
+            if w not in str(fl.get(k_)):
+                bad = bad or f"terminal --{k_} does not override the file"
+        if term['function'] != 'misfit' or not term['dry_run']:
+            bad = bad or "-m / -d do not arrive"
+    except Exception as e:      # noqa
+        bad = f"raised {e!r}"[:200]
+    return [ob("options not given on the command line leave the configured "
+               "values in force; given ones override them (real argparse)",
+               'cex' if bad else 'held', group=grp, cls='concrete',
+               nontrivial=False, note=bad or '',
+               key=f"CLI main(): {bad}" if bad else None,
+               cex=dict(kind='main', why=bad) if bad else None)]
+
+
+def case_run_load(function):
+    """cli.run.simulation, --load with --clean: the loaded simulation is
+    cleaned of everything computed, gets the new model, then computes."""
+    E = shadow.load()
+    set_ctx(Ctx(timeout_ms=30000))
+    State.OBJECT_ALLOC = True
+    R = E.cli.run
+    grp = f"run.simulation --load --clean function={function}"
+    events = []
+
+    class FakeData:
+        observed = 'OBS'
+        synthetic = 'SYN'
+
+    class FakeSurvey:
+        shape = (1, 1, 1)
+        count = 1
+
+    class FakeSim:
+        layered = False
+        survey = FakeSurvey()
+        data = FakeData()
+
+        @property
+        def misfit(self):
+            events.append('misfit')
+            return 'MISFIT'
+
+        @property
+        def gradient(self):
+            events.append('gradient')
+            return 'GRAD'
+
+        @classmethod
+        def from_file(cls, fname, **kw):
+            events.append(('from_file', os.path.basename(fname)))
+            return cls(), 'i\nj'
+
+        def clean(self, what):
+            events.append(('clean', what))
+
+        def __setattr__(self, k, v):
+            events.append(('set', k, v))
+            object.__setattr__(self, k, v)
+
+        def compute(self, **kw):
+            events.append(('compute', kw))
+
+        def print_grid_info(self, **kw):
+            return ''
+
+        def print_solver_info(self, *a, **kw):
+            return ''
+
+        def to_file(self, *a, **kw):
+            events.append(('to_file', os.path.basename(a[0])))
+            return 'a\nb'
+
+    class Log:
+        def info(self, *a):
+            pass
+        debug = info
+    cfg = {'files': {'survey': 'S', 'model': 'M.h5', 'output': 'O',
+                     'save': 'SIM.h5', 'load': 'SIM.h5', 'log': 'L'},
+           'simulation_options': {'gridding_opts': {}, 'layered': False},
+           'data': {}, 'noise_kwargs': {}}
+    term = dict(function=function, verbosity=0, dry_run=False, clean=True,
+                config_file='.')
+    saved = (R.parser.parse_config_file, R.check_files, R.initiate_logger,
+             R.io.load, R.io.save, R.simulations.Simulation)
+    R.parser.parse_config_file = lambda a: (cfg, term)
+    R.check_files = lambda *a: None
+    R.initiate_logger = lambda *a: Log()
+    R.io.load = lambda f, **k: ({'model': 'NEWMODEL'}, 'i\nj')
+    R.io.save = lambda f, **k: 'x\ny'
+    R.simulations.Simulation = FakeSim
+    try:
+        R.simulation({})
+    finally:
+        (R.parser.parse_config_file, R.check_files, R.initiate_logger,
+         R.io.load, R.io.save, R.simulations.Simulation) = saved
+    bad = None
+    if ('clean', 'computed') not in events:
+        bad = (f"the loaded simulation is not cleaned of its computed "
+               f"results: {[e for e in events if e[0] == 'clean']}")
+    elif ('set', 'model', 'NEWMODEL') not in events:
+        bad = "the new model is not set"
+    else:
+        i_clean = events.index(('clean', 'computed'))
+        i_comp = [i for i, e in enumerate(events) if e[0] == 'compute']
+        if not i_comp or i_comp[0] < i_clean:
+            bad = "compute() does not follow the clean"
+    if function != 'forward' and 'misfit' not in events:
+        bad = bad or "misfit not evaluated on the cleaned simulation"
+    return [ob("--load --clean: clean('computed'), new model set, then "
+               "compute (and misfit/gradient) on the cleaned simulation, "
+               "simulation saved again", 'cex' if bad else 'held', group=grp,
+               cls='concrete', nontrivial=False, note=bad or '',
+               key=f"cli.run --load --clean: {bad}" if bad else None,
+               cex=dict(kind='run', function=function, why=bad)
+               if bad else None)]
+
+
 # --------------------------------------------------------------------------
 def replay(cex):
     """Real package, real configparser, real files."""
@@ -866,6 +1059,16 @@ def replay(cex):
                 'violated' if bad else 'ok')
         if kind == 'run':
             return True, 'structural (recording stubs): '+str(cex['why'])
+        if kind == 'main':
+            a = _main_args(['.'])
+            bad = a.get('layered', None) is not None or \
+                a.get('nproc', None) is not None or any(
+                    a.get(k_) is not None for k_ in
+                    ('survey', 'model', 'output', 'save', 'load', 'cache',
+                     'path'))
+            return bad, ("real main(): options not given arrive as " +
+                         str({k_: a.get(k_) for k_ in ('layered', 'nproc',
+                                                       'survey', 'save')}))
     finally:
         shutil.rmtree(tmp, ignore_errors=True)
     return False, 'unknown kind'
@@ -891,6 +1094,9 @@ def main(tier):
     jobs += [('case_unknown', s) for s in docs]
     jobs += [('case_precedence', None)]
     jobs += [('case_run', f) for f in ('forward', 'misfit', 'gradient')]
+    jobs += [('case_run_load', f) for f in ('forward', 'misfit',
+                                            'gradient')]
+    jobs += [('case_main', None)]
     obs = pmap(_dispatch, jobs)
     run.add(obs)
     run.bounds = dict(documented_keys={s: [k for k, _, _ in v]
@@ -918,8 +1124,8 @@ def main(tier):
                  "Simulation -> recording stubs", "solver.multigrid/krylov "
                  "-> no-op for the acceptance of solver options"]
     run.outside = ["combinations of several options at once (beyond the "
-                   "precedence case)", "argparse (cli/main.py)", "whole-"
-                   "program runs: real files, real solves, caching/--clean"]
+                   "precedence case)", "whole-program runs: real files, "
+                   "real solves, three formats"]
     run.explanation = (
         "parse_config_file is executed on a modelled configuration whose "
         "typed getters return solver variables; for every documented key "
